@@ -1004,3 +1004,143 @@ Proof.
     split; [apply not_memN_not_In; reflexivity|].
     split; [right; exists (bs "ads"); split; [discriminate|reflexivity]|discriminate].
 Qed.
+
+Example ex_total_hyps :
+  Forall (fun nf => nf_raw nf <> None /\ lost_scheme_class nf = false /\ dollar_ok nf = true) [ex_exception; ex_host_rule] /\
+  Forall (fun nf => host_ok nf = true /\ empty_filter_class nf = false) [ex_exception; ex_host_rule] /\
+  Forall (fun cf => cf_raw cf <> None /\ cos_ok cf = true) [ex_cosmetic].
+Proof. repeat split; repeat constructor; try discriminate; vm_compute; reflexivity. Qed.
+
+(* ================================================================== inclusion: the two carve-outs, refuted *)
+(* `*$third-party` as parsed: mask 335871 = default options without FIRST_PARTY, plus IS_REGEX; empty filter, no hostname.
+   The crate's matcher applies it to wss:// URLs; the exported ^https?:// does not. *)
+Definition patternless_rule : netf := mkNet 335871 FEmpty None false false (Some (bs "*$third-party")).
+Theorem cb_patternless_ws_refuted : forall norm,
+  exists r, convert_network norm patternless_rule = Ok (COk [r]) /\
+            print_regex (r_url r) = bs "^https?://" /\
+            ~ ast_matches (r_url r) (bs "wss://x.com/").
+Proof.
+  intros norm. eexists. split; [vm_compute; reflexivity|]. split; [vm_compute; reflexivity|].
+  intros (a & m & b & E & S & A & _). cbn [r_url rx_start rx_body] in *.
+  rewrite (A eq_refl) in E. cbn [app] in E. clear A.
+  change sch_both with (IAtom (ALit 104) QOne :: (lits (bs "ttp") ++ s_opt ++ lits (bs "://"))) in S.
+  inversion S as [|x xs s1 t Hx Hxs]; subst. inversion Hx as [a0 q0 s0 Hq| |]; subst.
+  inversion Hq as [a1 c Hc| | | |]; subst. cbn in Hc. apply N.eqb_eq in Hc. subst c.
+  cbn in E. discriminate E.
+Qed.
+
+(* `||a` (hostname "a", empty filter) vs the URL s://u@a : the rule's host is the URL's host,
+   the exported ^[^:]+:(//)?([^/]+\.)?a cannot get past the credentials *)
+Definition userinfo_rule : netf :=
+  mkNet (N.lor ex_mask M_IS_HOSTNAME_ANCHOR) FEmpty (Some (bs "a")) false false (Some (bs "||a")).
+Lemma notplus_inv c s : item_matches (IAtom (ANot c) QPlus) s -> s <> [] /\ ~ In c s.
+Proof.
+  intros H. inversion H as [a q s0 Hq| |]; subst. inversion Hq as [| |a1 s1 NE F| |]; subst.
+  split; [exact NE|]. intros I. rewrite forallb_forall in F. specialize (F c I). cbn in F.
+  rewrite N.eqb_refl in F. discriminate.
+Qed.
+Lemma lit_inv c s : item_matches (IAtom (ALit c) QOne) s -> s = [c].
+Proof.
+  intros H. inversion H as [a q s0 Hq| |]; subst. inversion Hq as [a1 d Hd| | | |]; subst.
+  cbn in Hd. apply N.eqb_eq in Hd. subst. reflexivity.
+Qed.
+Lemma qlit_inv c s : qatom_matches (ALit c, QOne) s -> s = [c].
+Proof. intros Hq. inversion Hq as [a1 d Hd| | | |]; subst. cbn in Hd. apply N.eqb_eq in Hd. subst. reflexivity. Qed.
+
+Theorem cb_userinfo_refuted : forall norm,
+  exists r, convert_network norm userinfo_rule = Ok (COk [r]) /\
+            print_regex (r_url r) = bs "^[^:]+:(//)?([^/]+\.)?a" /\
+            ~ ast_matches (r_url r) (bs "s://u@a").
+Proof.
+  intros norm. eexists. split; [vm_compute; reflexivity|]. split; [vm_compute; reflexivity|].
+  intros (a & m & b & E & S & A & _). cbn [r_url rx_start rx_body] in *.
+  rewrite (A eq_refl) in E. cbn [app] in E. clear A.
+  change (host_prefix_items ++ lits (bs "a")) with
+    [IAtom (ANot COLON) QPlus; IAtom (ALit COLON) QOne;
+     IOptGroup [(ALit SLASH, QOne); (ALit SLASH, QOne)];
+     IOptGroup [(ANot SLASH, QPlus); (ALit DOT, QOne)]; IAtom (ALit 97) QOne] in S.
+  inversion S as [|x1 xs1 s1 t1 H1 S1]; subst. clear S.
+  inversion S1 as [|x2 xs2 s2 t2 H2 S2]; subst. clear S1.
+  inversion S2 as [|x3 xs3 s3 t3 H3 S3]; subst. clear S2.
+  inversion S3 as [|x4 xs4 s4 t4 H4 S4]; subst. clear S3.
+  inversion S4 as [|x5 xs5 s5 t5 H5 S5]; subst. clear S4.
+  inversion S5; subst. clear S5.
+  apply notplus_inv in H1 as [NE1 NC1]. apply lit_inv in H2. apply lit_inv in H5. subst s2 s5.
+  (* s1 = "s" *)
+  destruct s1 as [|c1 s1]; [congruence|]. cbn in E. injection E as E0 E. subst c1.
+  destruct s1 as [|c2 s1].
+  2:{ cbn in E. injection E as E1 E. exfalso. apply NC1. right. left. exact (eq_sym E1). }
+  cbn in E. injection E as E.
+  (* group (//)? *)
+  assert (G3 : s3 = [] \/ s3 = [SLASH; SLASH]).
+  { inversion H3 as [|g|g s Hs]; subst; [left; reflexivity|].
+    inversion Hs as [|y1 ys1 u1 v1 K1 Ks1]; subst. inversion Ks1 as [|y2 ys2 u2 v2 K2 Ks2]; subst.
+    inversion Ks2; subst. apply qlit_inv in K1. apply qlit_inv in K2. subst. right. reflexivity. }
+  (* group ([^/]+\.)? *)
+  assert (G4 : s4 = [] \/ exists x, x <> [] /\ ~ In SLASH x /\ s4 = x ++ [DOT]).
+  { inversion H4 as [|g|g s Hs]; subst; [left; reflexivity|].
+    inversion Hs as [|y1 ys1 u1 v1 K1 Ks1]; subst. inversion Ks1 as [|y2 ys2 u2 v2 K2 Ks2]; subst.
+    inversion Ks2; subst. apply qlit_inv in K2. subst.
+    inversion K1 as [| |a1 s1' NE F| |]; subst. right. exists u1. split; [exact NE|]. split.
+    - intros I. rewrite forallb_forall in F. specialize (F _ I). cbn in F. rewrite N.eqb_refl in F. discriminate.
+    - rewrite app_nil_r. reflexivity. }
+  assert (ND : forall x y, ~ (x ++ [DOT] ++ y = bs "//u@a") /\ ~ (x ++ [DOT] ++ y = bs "u@a")).
+  { intros x y. split; intros K;
+      (assert (I : In DOT (x ++ [DOT] ++ y)) by (apply in_or_app; right; left; reflexivity));
+      rewrite K in I; cbn in I; repeat (destruct I as [I|I]; [discriminate I|]); contradiction. }
+  destruct G3 as [->| ->]; destruct G4 as [->|(x & NEx & NSx & ->)]; cbn [app] in E.
+  - discriminate E.
+  - rewrite <- !app_assoc in E. exact (proj1 (ND x _) (eq_sym E)).
+  - discriminate E.
+  - injection E as E. rewrite <- !app_assoc in E. exact (proj2 (ND x _) (eq_sym E)).
+Qed.
+
+(* `||.a` (hostname ".a") vs s://x.a : the crate takes the dot of the rule's hostname as the label
+   boundary; the exported ^[^:]+:(//)?([^/]+\.)?\.a needs two consecutive dots *)
+Definition leading_dot_rule : netf :=
+  mkNet (N.lor ex_mask M_IS_HOSTNAME_ANCHOR) FEmpty (Some (bs ".a")) false false (Some (bs "||.a")).
+Theorem cb_leading_dot_refuted : forall norm,
+  exists r, convert_network norm leading_dot_rule = Ok (COk [r]) /\
+            print_regex (r_url r) = bs "^[^:]+:(//)?([^/]+\.)?\.a" /\
+            ~ ast_matches (r_url r) (bs "s://x.a").
+Proof.
+  intros norm. eexists. split; [vm_compute; reflexivity|]. split; [vm_compute; reflexivity|].
+  intros (a & m & b & E & S & A & _). cbn [r_url rx_start rx_body] in *.
+  rewrite (A eq_refl) in E. cbn [app] in E. clear A.
+  change (host_prefix_items ++ lits (bs ".a")) with
+    [IAtom (ANot COLON) QPlus; IAtom (ALit COLON) QOne;
+     IOptGroup [(ALit SLASH, QOne); (ALit SLASH, QOne)];
+     IOptGroup [(ANot SLASH, QPlus); (ALit DOT, QOne)]; IAtom (ALit DOT) QOne; IAtom (ALit 97) QOne] in S.
+  inversion S as [|x1 xs1 s1 t1 H1 S1]; subst. clear S.
+  inversion S1 as [|x2 xs2 s2 t2 H2 S2]; subst. clear S1.
+  inversion S2 as [|x3 xs3 s3 t3 H3 S3]; subst. clear S2.
+  inversion S3 as [|x4 xs4 s4 t4 H4 S4]; subst. clear S3.
+  inversion S4 as [|x5 xs5 s5 t5 H5 S5]; subst. clear S4.
+  inversion S5 as [|x6 xs6 s6 t6 H6 S6]; subst. clear S5.
+  inversion S6; subst. clear S6.
+  apply notplus_inv in H1 as [NE1 NC1]. apply lit_inv in H2. apply lit_inv in H5. apply lit_inv in H6. subst s2 s5 s6.
+  destruct s1 as [|c1 s1]; [congruence|]. cbn in E. injection E as E0 E. subst c1.
+  destruct s1 as [|c2 s1].
+  2:{ cbn in E. injection E as E1 E. exfalso. apply NC1. right. left. exact (eq_sym E1). }
+  cbn in E. injection E as E.
+  assert (G3 : s3 = [] \/ s3 = [SLASH; SLASH]).
+  { inversion H3 as [|g|g s Hs]; subst; [left; reflexivity|].
+    inversion Hs as [|y1 ys1 u1 v1 K1 Ks1]; subst. inversion Ks1 as [|y2 ys2 u2 v2 K2 Ks2]; subst.
+    inversion Ks2; subst. apply qlit_inv in K1. apply qlit_inv in K2. subst. right. reflexivity. }
+  assert (G4 : s4 = [] \/ exists x, x <> [] /\ ~ In SLASH x /\ s4 = x ++ [DOT]).
+  { inversion H4 as [|g|g s Hs]; subst; [left; reflexivity|].
+    inversion Hs as [|y1 ys1 u1 v1 K1 Ks1]; subst. inversion Ks1 as [|y2 ys2 u2 v2 K2 Ks2]; subst.
+    inversion Ks2; subst. apply qlit_inv in K2. subst.
+    inversion K1 as [| |a1 s1' NE F| |]; subst. right. exists u1. split; [exact NE|]. split.
+    - intros I. rewrite forallb_forall in F. specialize (F _ I). cbn in F. rewrite N.eqb_refl in F. discriminate.
+    - rewrite app_nil_r. reflexivity. }
+  destruct G3 as [->| ->]; destruct G4 as [->|(x & NEx & NSx & ->)]; cbn [app] in E.
+  - discriminate E.
+  - destruct x as [|c x]; [congruence|]. cbn in E. injection E as E1 E. apply NSx. left. exact (eq_sym E1).
+  - discriminate E.
+  - injection E as E. rewrite <- !app_assoc in E. cbn [app] in E.
+    destruct x as [|c x]; [congruence|]. cbn in E. injection E as E1 E.
+    destruct x as [|d x]; cbn in E; [discriminate E|]. injection E as E2 E.
+    destruct x as [|e x]; cbn in E; [discriminate E|]. injection E as E3 E.
+    destruct x; cbn in E; discriminate E.
+Qed.
